@@ -46,7 +46,9 @@ fn bad_keys() -> Vec<&'static str> {
     vec!["idf", "[1, idf]", "{1: idf}"]
 }
 fn value_pool() -> Vec<&'static str> {
-    vec!["1", "2", "5", "\"a\"", "\"b\"", "null", "[1]", "1.0", "(1/2)", "2^64", "[]", "{1: 2}", "0"]
+    vec!["1", "2", "5", "\"a\"", "\"b\"", "null", "[1]", "1.0", "(1/2)", "2^64", "[]", "{1: 2}", "0",
+        // values that are not == to themselves: NaN at depth 0, 1, 2
+        "(0.0/0.0)", "[0.0/0.0]", "{1: 0.0/0.0}", "[[1, 0.0/0.0]]", "{1: [0.0/0.0]}"]
 }
 
 struct Elem {
@@ -271,7 +273,12 @@ fn run_sequence(g: &mut Gen, rng: &mut Rng, n_ops: usize) {
                     }
                 }
             }
-            16 => g.observe("==", &format!("{} == {}", var, other), format!("eq {} {}", st, st2), false),
+            16 | 17 => {
+                // `==` / `!=` / inside lists; `other` may be the SAME variable (identity must not matter)
+                g.observe("==", &format!("{} == {}", var, other), format!("eq {} {}", st, st2), false);
+                g.observe("!=", &format!("{} != {}", var, other), format!("ne {} {}", st, st2), false);
+                g.observe("==in-list", &format!("[1, {}] == [1, {}]", var, other), format!("eq [1,{}] [1,{}]", st, st2), false);
+            }
             _ => {}
         }
         // observations on the touched dictionary
@@ -404,6 +411,48 @@ fn main() {
     }
     let mut rng = Rng::new(args.seed);
     let mut g = Gen { interp: &interp, keys: &keys, bad: &bad, vals: &vals, cases: vec![], twins, script: vec![] };
+    // ---- identity sweep: `==` must depend on the contents only. Dicts with a NaN among the VALUES at
+    // depth 0-2 (not == to themselves) and without; both operands the same variable, an alias, an
+    // un-shared copy (written to and restored), a separately built equal dict; plain, `!=`, inside
+    // lists and as dict values.
+    {
+        let dict_srcs = [
+            "{1: 0.0/0.0}", "{1: [0.0/0.0]}", "{1: {2: 0.0/0.0}}", "{1: [[0.0/0.0]]}", "{1: 2, 3: 0.0/0.0}", "{:0.0/0.0, 1: 2}",
+            "{0.0/0.0: 1}", "{[0.0/0.0]: 1}", "{1: 2}", "{}", "{1: [2, {3: 4}]}", "{1.0: 0.0/0.0, \"a\": 1}", "{1: V(0.0/0.0)}",
+            "{1: (0.0/0.0)+1i}",
+        ];
+        for (di, dsrc) in dict_srcs.iter().enumerate() {
+            let it = Interp::new();
+            let setup = format!("xa := {}; xb := xa; xc := xa; xc[99] = 0; remove xc[99]; xd := {}; la := [xa, 1]; lb := la", dsrc, dsrc);
+            if !matches!(it.eval(&setup), Outcome::Ok(_)) {
+                rep.notes.push(format!("identity sweep: setup failed for {}", dsrc));
+                continue;
+            }
+            let st = match it.eval_obj("xa") {
+                Ok(o) => canon(&o),
+                Err(_) => continue,
+            };
+            let forms: [(&str, String, String); 9] = [
+                ("same", "xa == xa".into(), format!("eq {} {}", st, st)),
+                ("same", "xa != xa".into(), format!("ne {} {}", st, st)),
+                ("alias", "xa == xb".into(), format!("eq {} {}", st, st)),
+                ("alias", "xb != xa".into(), format!("ne {} {}", st, st)),
+                ("unshared", "xa == xc".into(), format!("eq {} {}", st, st)),
+                ("rebuilt", "xa == xd".into(), format!("eq {} {}", st, st)),
+                ("in-list-same", "[xa] == [xa]".into(), format!("eq [{}] [{}]", st, st)),
+                ("in-list-alias", "la == lb".into(), format!("eq [{},1] [{},1]", st, st)),
+                ("as-value-alias", "{7: xa} == {7: xb}".into(), format!("eq {{7:{}}} {{7:{}}}", st, st)),
+            ];
+            for (name, expr, req) in forms.iter() {
+                let rust = match it.eval_obj(expr) {
+                    Ok(o) => format!("ok {}", canon(&o)),
+                    Err(Outcome::Panic(_)) => "panic".into(),
+                    Err(_) => "throw".into(),
+                };
+                g.cases.push(Case { key: format!("identity-{}(d{})", name, di), input: format!("{}; {}", setup, expr), request: req.clone(), rust });
+            }
+        }
+    }
     // ---- exhaustive twin sweep: EVERY ordered pair (a, b) of pool keys: a dictionary keyed by `a`
     // is read, tested and updated through `b`, and {a, b} is built as a set
     g.script.clear();
